@@ -960,7 +960,8 @@ class SamplingMethod(DirectMethod):
                 var = self.t0
             opti_initial = opti.initial()
             if is_numeric(expr):
-                value = ca.evalf(expr)
+                # (structural zeros of a sparse guess are zeros)
+                value = ca.densify(ca.evalf(expr))
             else:
                 expr = ca.hcat([self.eval_at_control(stage, expr, k) for k in list(range(self.N))+[-1]]) # HOT line
                 value = DM(opti.debug.value(expr, opti_initial))
@@ -995,7 +996,8 @@ class SamplingMethod(DirectMethod):
         for var, expr in initial_alg.items():
             opti_initial = opti.initial()
             if is_numeric(expr):
-                value = ca.evalf(expr)
+                # (structural zeros of a sparse guess are zeros)
+                value = ca.densify(ca.evalf(expr))
             else:
                 expr = ca.hcat([self.eval_at_control(stage, expr, k) for k in range(self.N)]) # HOT line
                 value = DM(opti.debug.value(expr, opti_initial))
